@@ -143,6 +143,7 @@ InstThoroughThresh == [maxlen |-> 4, minqs |-> {20}, samples |-> 2, fm |-> Plain
 InstThoroughThresh3 == [maxlen |-> 5, minqs |-> {20}, samples |-> 3, fm |-> Plain, cv |-> SubSeq(CVSingle, 1, 3), th |-> THQuick]
 InstTiny == [maxlen |-> 2, minqs |-> {0, 20, 30}, samples |-> 2, fm |-> FMQuick, cv |-> SubSeq(CVFilter, 1, 3), th |-> THJoint]
 
+
 THS == ThSeq(Inst.th)               \* constant: a fixed enumeration of the threshold configurations
 
 Ix == Samples \X (1..Len(Inst.fm)) \X (1..Len(Inst.cv))
@@ -188,10 +189,15 @@ FilterChangesDepth == \A c \in FCs : \A c2 \in UpOf[c] : \A s \in Samples : \A p
 
 ThLeq(t, u) == /\ t.imaf[1] * u.imaf[2] <= u.imaf[1] * t.imaf[2] /\ t.imad <= u.imad /\ t.mind <= u.mind
                /\ t.maf[1] * u.maf[2] <= u.maf[1] * t.maf[2] /\ t.mad <= u.mad
-ThPairs == {<<t, u>> \in Inst.th \X Inst.th : t # u /\ ThLeq(t, u)}
+Differ1(t, u) == B01(t.imaf # u.imaf) + B01(t.imad # u.imad) + B01(t.mind # u.mind) + B01(t.maf # u.maf) + B01(t.mad # u.mad) = 1
+(* pairs (i, j) of threshold configurations with THS[i] <= THS[j] differing in one option (monotonicity along *)
+(* chains follows by transitivity); constant, evaluated once                                                 *)
+ThPairsIdx == {ij \in (1..Len(THS)) \X (1..Len(THS)) : ThLeq(THS[ij[1]], THS[ij[2]]) /\ Differ1(THS[ij[1]], THS[ij[2]])}
 D0 == depth[CHOOSE c \in FCs : c.minq = 20 /\ ~c.kd /\ ~c.kq /\ ~c.ks]
 (* raising a threshold never adds an allele *)
-ThresholdMonotone == \A tu \in ThPairs : \A p \in 1..NP : Keep(D0, p, tu[2]) \subseteq Keep(D0, p, tu[1])
+ThresholdMonotone ==
+  LET K == TLCEval([i \in 1..Len(THS) |-> [p \in 1..NP |-> Keep(D0, p, THS[i])]])
+  IN  \A ij \in ThPairsIdx : \A p \in 1..NP : K[ij[2]][p] \subseteq K[ij[1]][p]
 (* an allele without a single read is never listed once any threshold is positive *)
 KeptHasSupport == \A t \in Inst.th : \A p \in 1..NP : \A b \in Keep(D0, p, t) :
   (t.imad > 0 \/ t.mad > 0 \/ t.imaf[1] > 0 \/ t.maf[1] > 0) => SumDepth(D0, Samples, p, b) > 0
